@@ -47,7 +47,7 @@ func (bh *Header) DecodeBinary(r io.Reader) error {
 	}
 	err = binary.Read(r, binary.LittleEndian, &lText)
 	if err != nil {
-		return err
+		return noEOF(err)
 	}
 	if lText < 0 {
 		return errors.New("sam: invalid text length")
@@ -55,7 +55,7 @@ func (bh *Header) DecodeBinary(r io.Reader) error {
 	text := make([]byte, lText)
 	n, err := io.ReadFull(r, text)
 	if err != nil {
-		return err
+		return noEOF(err)
 	}
 	if n != int(lText) {
 		return errors.New("sam: truncated header")
@@ -66,14 +66,14 @@ func (bh *Header) DecodeBinary(r io.Reader) error {
 	}
 	err = binary.Read(r, binary.LittleEndian, &nRef)
 	if err != nil {
-		return err
+		return noEOF(err)
 	}
 	if nRef < 0 {
 		return errors.New("sam: invalid reference count field")
 	}
 	refs, err := readRefRecords(r, nRef)
 	if err != nil {
-		return err
+		return noEOF(err)
 	}
 	for _, r := range refs {
 		err = bh.AddReference(r)
@@ -82,6 +82,15 @@ func (bh *Header) DecodeBinary(r io.Reader) error {
 		}
 	}
 	return nil
+}
+
+// noEOF converts io.EOF to io.ErrUnexpectedEOF: once the magic number
+// has been read the input cannot end cleanly before the header does.
+func noEOF(err error) error {
+	if err == io.EOF {
+		return io.ErrUnexpectedEOF
+	}
+	return err
 }
 
 func readRefRecords(r io.Reader, n int32) ([]*Reference, error) {
